@@ -6,7 +6,9 @@
     parser   decode_base64_value            OTA attribute values, DRMREL ds:KeyValue, SyncML NextNonce
     xml enc  xml_encode_text                base64 for WBXML_TAG_OPTION_BINARY elements (wbxml_buffer_encode_base64)
     xml dec  wbxml_tree_clb_xml_end_element wbxml_buffer_decode_base64 (white space removed first) for binary elements
-    encoder  wbxml_encode_ota_nokia_icon, wbxml_encode_drmrel_content   wbxml_base64_decode(buffer, -1, …), no stripping
+    encoder  wbxml_encode_ota_nokia_icon, wbxml_encode_drmrel_content   copy of the text, wbxml_buffer_no_spaces, then
+                                                                        wbxml_base64_decode(cstr, -1, …) (white space removed first
+                                                                        since the fix of finding b64-whitespace-ota-drmrel)
 -/
 import Wbxml.Model.Typed.Datetime
 import Wbxml.Model.Codec.Base64
@@ -32,10 +34,12 @@ def base64ToBytesStrip (s : Bytes) : Except Err Bytes :=
     (`parse_text` → `wbxml_encode_opaque`). -/
 def binaryElemItem (s : Bytes) : Except Err Bytes := (base64ToBytesStrip s).map opaqueItem
 
-/-- `wbxml_encode_ota_nokia_icon` / `wbxml_encode_drmrel_content` on a C string: decode up to the first
-    character outside the alphabet (no white-space removal), a zero count gives an empty opaque. -/
-def base64ToOpaqueNoStrip (s : Bytes) : Bytes :=
-  match b64Decode s with
+/-- `wbxml_encode_ota_nokia_icon` / `wbxml_encode_drmrel_content` on a C string: white space is removed from
+    a copy of the text (`wbxml_buffer_create_from_cstr`, `wbxml_buffer_no_spaces`), the rest is decoded up to the
+    first character outside the alphabet, a zero count gives an empty opaque (no error, unlike
+    `wbxml_buffer_decode_base64`). Before the fix the text itself was decoded: up to the first white space. -/
+def base64ToOpaqueStrip (s : Bytes) : Bytes :=
+  match b64Decode (s.filter (fun c => !isSpace c)) with
   | some r => opaqueItem r
   | none => opaqueItem []
 
